@@ -427,8 +427,18 @@ fn gen_tl(r: &mut Rng, n: usize, out: &mut dyn Write) {
         let tl = gen_timeline(r, shape, exact, tame);
         let fields = shape_fields(shape);
         let anim_idx: Vec<usize> = fields.iter().enumerate().filter(|(_, f)| f.1).map(|(i, _)| i).collect();
+        writeln!(out, "reset").unwrap();
+        for s in ["S8", "Q5", "R4"] {
+            writeln!(out, "{}", shape_line(s)).unwrap();
+        }
         writeln!(out, "{}", tl.line(0)).unwrap();
         writeln!(out, "meta 0").unwrap();
+        {
+            // reported metadata = configured (total = delay + cycle * (repeats + 1), computed here from the spec)
+            let total = match tl.cycles() { None => "inf".to_string(), Some(c) => b(tl.delay_v() + tl.dur_v() * c as f32) };
+            let rep = tl.rep.clone().unwrap_or("n".into());
+            writeln!(out, "# expect C03 1 0={} 1={} 2={} 3={}", b(tl.delay_v()), b(tl.dur_v()), total, rep).unwrap();
+        }
         // permuted twin (C11) and un-substituted twin (C10)
         let mut perm = tl.clone();
         r.shuffle(&mut perm.kfs);
@@ -446,6 +456,9 @@ fn gen_tl(r: &mut Rng, n: usize, out: &mut dyn Write) {
             writeln!(out, "start 0 {}", sv.join(" ")).unwrap();
             writeln!(out, "start 1 {}", sv.join(" ")).unwrap();
             writeln!(out, "meta 0").unwrap();
+            // start_with leaves delay / duration / repeat untouched (C09)
+            writeln!(out, "meta 2").unwrap();
+            writeln!(out, "# eq C09 1 2").unwrap();
         }
         writeln!(out, "clone 0 3").unwrap();
         // which animated fields have a keyframe at all
